@@ -98,7 +98,7 @@ def cells_for(chk, tier):
             cells.append((s, ()))
         for s in rng.sample(srcs, 12):
             cells.append((s, rng.choice(OPTION_SETS[1:])))
-        gen = gensrc.sources_for("C01", chk, n=13)
+        gen = gensrc.sources_for("C01", chk, n=15)
     else:
         for s in srcs:
             cells.append((s, ()))
